@@ -1,9 +1,81 @@
 import Driver.Util
-/-! driver ops of C11 (prefix `c11.`); filled in by the C11 work -/
+import Model.Versioned
+/-! driver ops of C11 (prefix `c11.`)
+
+`c11.run op…` → `ok tok…`, one token per op: `out|versions|pins|writer`
+ops: `oL<h>` reader(), `oI<h>:<id>` reader(id=), `oS<h>:<serial>` reader(serial=), `c<h>` end of read txn `h`,
+`w` writer(), `C<content>:<serial|->:<0|1>` commit (last field: did the txn change anything), `R` rollback,
+`M<int>` / `Mnone` set_max_versions, `Pnone` / `P.` / `P<id,id,…>` set_pruning_policy (ids on which the predicate is true),
+`O<h>` observe through read txn `h`.
+-/
 namespace Driver
-open Model
+open Model.Versioned
+
+def parseNatList (s : String) : Option (List Nat) :=
+  if s = "." then some [] else (s.splitOn ",").mapM String.toNat?
+
+def parseOp11 (s : String) : Option Op :=
+  match s.toList with
+  | 'o' :: 'L' :: r => (String.ofList r).toNat?.map Op.openLatest
+  | 'o' :: 'I' :: r =>
+    match (String.ofList r).splitOn ":" with
+    | [h, i] => do some (Op.openId (← h.toNat?) (← i.toNat?))
+    | _ => none
+  | 'o' :: 'S' :: r =>
+    match (String.ofList r).splitOn ":" with
+    | [h, i] => do some (Op.openSerial (← h.toNat?) (← i.toNat?))
+    | _ => none
+  | 'c' :: r => (String.ofList r).toNat?.map Op.close
+  | ['w'] => some Op.wopen
+  | ['R'] => some Op.rollback
+  | 'C' :: r =>
+    match (String.ofList r).splitOn ":" with
+    | [c, sn, ch] => do
+      let c ← c.toNat?
+      let sn ← if sn = "-" then some none else sn.toNat?.map some
+      let ch ← parseBool ch
+      some (Op.commit c sn ch)
+    | _ => none
+  | 'M' :: r =>
+    let a := String.ofList r
+    if a = "none" then some (Op.setMax none) else a.toInt?.map (fun n => Op.setMax (some n))
+  | 'P' :: r =>
+    let a := String.ofList r
+    if a = "none" then some (Op.setPolicy none) else (parseNatList a).map (fun l => Op.setPolicy (some l))
+  | 'O' :: r => (String.ofList r).toNat?.map Op.observe
+  | _ => none
+
+def showErr11 : Err → String
+  | .keyError => "KeyError" | .valueError => "ValueError" | .alreadyEnded => "AlreadyEnded" | .noWriter => "NoWriter"
+
+def showOut11 : Out → String
+  | .ok => "ok"
+  | .pinned i c => s!"P{i}:{c}"
+  | .err e => "E" ++ showErr11 e
+  | .blocked => "B"
+
+def insertNat (x : Nat) : List Nat → List Nat
+  | [] => [x]
+  | y :: r => if x ≤ y then x :: y :: r else y :: insertNat x r
+
+def dashJoin (xs : List String) : String := if xs.isEmpty then "-" else ",".intercalate xs
+
+def showState11 (s : State) : String :=
+  let vs := dashJoin (s.versions.map fun v => s!"{v.id}:{v.content}:" ++ (match v.serial with | some n => toString n | none => "-"))
+  let pins := dashJoin (((s.readers.map (·.2.id)).foldr insertNat []).map toString)
+  let w := match s.writer with | some i => s!"w{i}" | none => "-"
+  s!"{vs}|{pins}|{w}"
+
+def trace11 : State → List Op → List String
+  | _, [] => []
+  | s, op :: rest =>
+    let r := step s op
+    s!"{showOut11 r.2}|{showState11 r.1}" :: trace11 r.1 rest
 
 def handleC11 : List String → Option String
+  | "c11.run" :: ops => do
+    let ops ← ops.mapM parseOp11
+    some (" ".intercalate ("ok" :: trace11 init ops))
   | _ => none
 
 end Driver
